@@ -27,6 +27,15 @@ def c02RowOk (r : OpFact) : Bool :=
 def c02RowStrict (r : OpFact) : Bool :=
   r.ctor != .unknownC && (!r.multiFeeder || r.serialized) && (!r.passThrough || r.serialized)
 
+/-- `emitMode (r :: rest)`: the constructor mode of the subscriber that `r` emits into, when the
+    stages downstream of `r` are `rest` (nearest first) and the final observer is a plain observer. -/
+def emitMode : List OpFact → Option Ctor
+  | [] => none
+  | [r] => some r.ctor
+  | r :: r' :: rest => if r'.passThrough then emitMode (r' :: rest) else some r.ctor
+
+def serializedMode (c : Ctor) : Bool := c == .safeC || c == .evSafeC
+
 /-! ### C08: only the hand-off / time-driven operators emit from a goroutine of their own -/
 
 def asyncByDesign : List String :=
